@@ -126,6 +126,7 @@ func checkC05(c *core.Ctx) {
 	}
 	iohelpStreamWidths(c, gr.p, "R1")
 	iohelpLatchRules(c, gr.p, "-", "R2", "-", "-")
+	iohelpCtorDirect(c, gr.p, "R2c")
 	dropRules(c, "-")
 	for _, rf := range gr.ga.Recs {
 		sr := rf.M[mSR]
@@ -209,7 +210,8 @@ func checkC08(c *core.Ctx) {
 		return
 	}
 	iohelpLatchRules(c, gr.p, "R1", "R2", "R5", "R6")
-	iohelpDrain(c, gr.p, "R5")
+	iohelpCtorDirect(c, gr.p, "R2c")
+	iohelpDrain(c, gr.p, "R5", true)
 	for _, rf := range gr.ga.Recs {
 		for _, m := range []string{mSW, mSR} {
 			mf := rf.M[m]
